@@ -510,6 +510,8 @@ Lemma named_operators_correct :
   (forall pp pn, op_correct_ (op_difference pp pn) (difference_spec pp pn)) /\
   op_correct_ (op_zip Tick Tick) zip_tick_spec /\
   op_correct_ (op_zip Static Static) zip_static_spec /\
+  op_correct_ (op_zip Static Tick) zip_st_spec /\
+  op_correct_ (op_zip Tick Static) zip_ts_spec /\
   op_correct_ op_zip_longest (fun _ cur => [vzip_longest (port 0 cur) (port 1 cur)]) /\
   op_correct_ op_demux2 (fun _ cur => [map vsnd (filter (fun v => vnum (vfst v) =? 0) (port 0 cur));
                                        map vsnd (filter (fun v => vnum (vfst v) =? 1) (port 0 cur))]) /\
@@ -539,6 +541,8 @@ Proof.
   - apply difference_correct.
   - apply zip_tick_correct.
   - apply zip_static_correct.
+  - apply zip_st_correct.
+  - apply zip_ts_correct.
   - apply scan_correct.
   - apply cross_singleton_correct.
   - apply fold_no_replay_correct.
